@@ -364,6 +364,67 @@ def analyse(facts, tier):
                     why='noteOff(channel, key, forceNow = true)' if okf else
                     'panic only defers the key-off of drum notes younger than the minimal drum time: they stay active after the panic, and a chip-count / bank / chip-type change then rebuilds the chip channels under them'))
 
+    # every loop that releases "all keys" covers the keys 0..127: a for loop whose induction variable is the key argument of a
+    # note-off call starts at 0 and runs while key < 128
+    from .. import e2prog
+    n_all = 0
+    for fn in facts.all_fns():
+        if fn.relfile() not in e2prog.CORE_FILES or fn.tree is None:
+            continue
+        loops = []
+        def rec_l(t):
+            if isinstance(t, dict):
+                if t.get('k') == 'ForStmt' and t.get('cond') is not None:
+                    loops.append(t)
+                for k2 in ('body', 'then', 'else', 'sub', 'init'):
+                    v = t.get(k2)
+                    if isinstance(v, (dict, list)):
+                        rec_l(v)
+            elif isinstance(t, list):
+                for y in t:
+                    rec_l(y)
+        rec_l(fn.tree)
+        for l in loops:
+            c = strip(l['cond'])
+            if c.get('k') != 'BinaryOperator' or strip(c['l']).get('k') != 'DeclRefExpr':
+                continue
+            iv = strip(c['l'])
+            used = False
+            for x in walk(l.get('body')):
+                if ('callee' in x or 'callee_e' in x) and (short(callee_name(x)) in ('noteOff', 'realTime_NoteOff', 'rt_noteOff', 'rt_noteOffVel') or
+                                                          (x.get('callee_e') is not None and mentions(x['callee_e'], lambda y: y.get('k') == 'MemberExpr' and short(y['n']) in ('rt_noteOff', 'rt_noteOffVel')))):
+                    args = x.get('a', [])
+                    # (channel, key[, ...]) or (userdata, channel, key[, velocity]): the key is never the first argument
+                    if len(args) >= 2 and any(strip(a).get('k') == 'DeclRefExpr' and strip(a).get('id') == iv.get('id') for a in args[1:]) and not callee_name(x).startswith('OPN2::'):
+                        used = True
+            if not used:
+                continue
+            n_all += 1
+            bound = const_of(c['r'])
+            okb = (c['op'] == '<' and bound == 128) or (c['op'] == '<=' and bound == 127)
+            obls.append(Obl('C05.R5', fn.name, 'all-keys loop %s' % show(l['cond']), '%s:%s' % (fn.file, l.get('ln')), 'discharged' if okb else 'finding',
+                            why='keys 0..127' if okb else 'the loop that releases every key of the channel stops before key 127: a sounding note 127 is not released'))
+    if n_all < 2:
+        raise build.AnalysisBroken('C05.R5: only %d all-keys release loops found (panic, setChannelEnabled)' % n_all)
+    # note-on and note-off normalise the key number alike (a key that note-on maps to 127 must be found by note-off)
+    def key_clamp(fn_):
+        kp = fn_.params[1]
+        for b, j, st in fn_.cfg.stmts():
+            for x in walk(st['s']):
+                ap = assign_parts(x)
+                if ap and strip(ap[0]).get('id') == kp['id'] and const_of(ap[1]) is not None:
+                    gf = guard_facts(fn_, b, st)
+                    for f in gf:
+                        nrm = cmp_norm(f) if f[0] == 'cmp' else None
+                        if nrm and strip(nrm[1]).get('id') == kp['id']:
+                            return (nrm[0], nrm[2], const_of(ap[1]))
+        return None
+    on_ = key_clamp(facts.fn('OPNMIDIplay::realTime_NoteOn'))
+    off_ = key_clamp(facts.fn('OPNMIDIplay::realTime_NoteOff'))
+    okn = on_ == off_
+    obls.append(Obl('C05.R2', 'OPNMIDIplay::realTime_NoteOff', 'key normalised as in note-on', facts.fn('OPNMIDIplay::realTime_NoteOff').loc, 'discharged' if okn else 'finding',
+                    why='both: %s' % (on_,) if okn else 'note-on maps the key with %s, note-off with %s: a note started with an out-of-range key number cannot be ended with the same number' % (on_, off_)))
+
     # ---- R6
     sd = single_defs(nu.d)
     er = list(users_calls(nu, 'erase'))
